@@ -30,6 +30,7 @@ static size_t ZSTD_compressBlock_splitBlock(ZSTD_CCtx* zc, void* dst, size_t dst
 BLOCK_COMPRESSOR_CONTRACT()
 ;
 static size_t ZSTD_compressBlock_internal(ZSTD_CCtx* zc, void* dst, size_t dstCapacity, const void* src, size_t srcSize, U32 frame)
+__CPROVER_requires(dstCapacity >= MIN_CBLOCK_SIZE + 1)          /* room for the RLE byte: the fact unit c08_block_offcode_mode assumes */
 BLOCK_COMPRESSOR_CONTRACT(&& __CPROVER_return_value <= srcSize)
 ;
 size_t ZSTD_splitBlock(const void* src, size_t srcSize, size_t blockSizeMax, ZSTD_SplitBlock_strategy_e splitStrat, void* workspace, size_t wkspSize)
